@@ -484,6 +484,9 @@ class Parser():
                        not self._tokens[then_end_pos].matches(lexer.TokNewline)):
                     then_end_pos += 1
 
+                # (A short-if can be nested in the body of another short-if
+                # on the same line: restore the outer limit afterwards.)
+                outer_max_pos = self._max_pos
                 try:
                     self._max_pos = then_end_pos
                     block = self._assert(self._chunk(),
@@ -493,7 +496,7 @@ class Parser():
                         # PICO-8 accepts an else with nothing after it.
                         else_block = self._chunk()
                 finally:
-                    self._max_pos = None
+                    self._max_pos = outer_max_pos
 
                 # (Use exp.value here to unwrap the condition from the
                 # bracketed expression.)
